@@ -156,6 +156,10 @@ def c08(case, lines):
         elif i["t"] == 6:
             want.append(("pubcomp", i["pid"]))
     got = [(i["kind"], i["pid"]) for k, i in outp if i["kind"] in ("puback", "pubrec", "pubcomp")]
+    for k, i in outp:
+        if i["kind"] in ("puback", "pubrec", "pubcomp") and len(i["raw"]) > 4 and i["raw"][4] >= 128:
+            return "acks: the %s for identifier %d written at event %d carries the failing reason code 0x%02x: that is a refusal, not the acknowledgement of a message that was received" % (
+                i["kind"], i["pid"], k, i["raw"][4])
     if end is not None:
         # packets of the event in which run() returned may or may not have been taken
         if got != want[:len(got)]:
@@ -170,6 +174,12 @@ def c08(case, lines):
 @oracle("C09")
 def c09(case, lines):
     tr = Trace(case, lines)
+    if (case.get("id") or "").startswith("pubrec-fails-then-resume"):
+        # m2's PUBREC could not be written, the broker delivers m2 again on the next connection: m2 reaches the application once
+        got = [kv(" ".join(l.split(" ")[3:]))["pl"] for l in lines if l.split(" ")[1] == "I"]
+        if got != [M.hx(b"m1"), M.hx(b"m2")]:
+            return "qos2: the stream yielded %s; m1 and m2 were each sent (m2 twice, the second time as a re-delivery): exactly-once means ['%s', '%s']" % (got, M.hx(b"m1"), M.hx(b"m2"))
+        return None
     if not (case.get("meta") or {}).get("malformed"):
         r = rejected_wellformed(tr, "the message is never delivered")
         if r:
@@ -370,13 +380,13 @@ def c11(case, lines):
     # scripts with real concurrent operations: every PUBLISH (QoS>0), SUBSCRIBE and UNSUBSCRIBE on the wire carries a
     # non-zero identifier that no other still-outstanding operation carries, and every SUBSCRIBE its own subscription id
     tr = Trace(case, lines)
-    if not has(tr, "spin", "reconnect") and not tr.faulty:
-        conn = connection_streams(tr)[0]
+    subids = set()
+    for conn in (connection_streams(tr) if not has(tr, "spin", "spinsub", "threads") and not tr.faulty else []):
         inp, outp = inbound(tr, conn), outbound(tr, conn)
         if inp is not None and outp is not None:
             timeline = [(k, 0, o) for k, o in outp] + [(k, 1, rx_info(p)) for k, p in inp]
             timeline.sort(key=lambda x: (x[0], x[1]))
-            outstanding, subids = {}, set()
+            outstanding = {}
             for k, side, x in timeline:
                 if side == 0:
                     if (x["kind"] == "publish" and x["qos"] > 0 and not x["dup"]) or x["kind"] in ("subscribe", "unsubscribe"):
@@ -486,6 +496,12 @@ def c12_per_connection(tr):
                     return "accept: operation %d (%s, %d bytes) was refused although the CONNACK of its connection announced %d" % (op, sp["kind"], L, Mx)
                 if not refused and L > Mx and res and not any("ContextExited" in r or "SocketClosed" in r for r in res):
                     return "reject: operation %d (%s, %d bytes) ended with %s although the CONNACK of its connection announced %d" % (op, sp["kind"], L, res, Mx)
+    # no quota slot is left behind or handed back by a refusal: the accounting of C10 holds on every connection
+    if not has(tr, "hold", "dropctx", "spin") and len(connection_streams(tr)) == 1 and not tr.faulty:
+        R = connack_props(tr).get(33, 65535)
+        q = quota_walk(tr, connection_streams(tr)[0], R, set())
+        if q:
+            return "sideeffect: " + q
     return None
 
 
@@ -666,6 +682,7 @@ def completion_monitor(case, lines, strict_content=True):
     acks_seen = {}
     for k, p in inp:
         i = rx_info(p)
+        i["raw"] = p
         acks_seen.setdefault((i["t"], i.get("pid")), []).append((k, i))
     pings = sorted([op for op, sp in specs.items() if sp["kind"] == "ping" and op in fp], key=lambda o: fp[o])
     pingresps = sorted(k for k, p in inp if p[0] >> 4 == 13)
@@ -712,6 +729,13 @@ def completion_monitor(case, lines, strict_content=True):
                     return "content: operation %d reports reason %s, its acknowledgement carried %d" % (op, m and m.group(1), i["reason"])
                 if res == "ok" and i["reason"] >= 128 and i["t"] in (4, 5, 7):
                     return "content: operation %d succeeded although its acknowledgement carried reason %d" % (op, i["reason"])
+                # the whole content: reason code(s), reason string, user properties - as the standard's layout says
+                try:
+                    want = expected_view(i["raw"])
+                except Exception:
+                    want = None
+                if want is not None and want != res and not (want == "ok" and res == "ok"):
+                    return "content: operation %d completed with '%s', its acknowledgement (%s...) carries '%s'" % (op, res[:80], M.hx(i["raw"][:16]), want[:80])
     if hold or tr.faulty:
         return None
     dk = next((k for k, e in enumerate(tr.evs) if e == "dropctx"), None)
@@ -799,6 +823,10 @@ def completion_monitor(case, lines, strict_content=True):
 
 @oracle("C05")
 def c05(case, lines):
+    if not (case.get("meta") or {}).get("malformed"):
+        r_ = rejected_wellformed(Trace(case, lines), "the operations outstanding never get their acknowledgements")
+        if r_:
+            return r_
     return completion_monitor(case, lines)
 
 
@@ -813,6 +841,17 @@ def c06(case, lines):
 
 
 def c06_main(case, lines):
+    tr0 = Trace(case, lines)
+    if not tr0.faulty and not has(tr0, "reconnect", "dropctx", "wblock"):
+        # what was written must at least be a sequence of whole, well-formed client packets
+        wire = wire_of(lines)
+        pk = M.split_packets(bytes(wire))
+        if pk is None:
+            return "wire: the bytes written are not a sequence of whole packets (a length field does not match what follows it)"
+        for q_ in pk:
+            e = M.wellformed_client_packet(q_)
+            if e:
+                return "wire: a written packet (%s...) is not well-formed MQTT 5: %s" % (M.hx(q_[:12]), e)
     m = completion_monitor(case, lines)
     if m:
         return m
@@ -872,6 +911,20 @@ def c07(case, lines):
         r = rejected_wellformed(tr, "the message never reaches its stream")
         if r:
             return r
+    if (case.get("id") or "") == "very-late-consumer":
+        # tens of thousands of messages wait in the stream of a live subscription: all of them are yielded, in one go, and the
+        # stream is neither ended nor robbed of its registration afterwards
+        z = [kv(" ".join(l.split(" ")[3:])) for l in lines if l.split(" ")[1] == "Z"]
+        if not z:
+            return "backlog: no digest"
+        d = z[0]
+        if d["yielded"] != d["polls"] or int(d["pending"]) or int(d["ended"]):
+            return "backlog: %s messages were delivered to the stream of a live subscription; %s polls yielded %s of them (%s Pending, %s end of stream%s)" % (
+                d["polls"], d["polls"], d["yielded"], d["pending"], d["ended"], (", first gap at poll " + d["firstgap"]) if "firstgap" in d else "")
+        tail = [l.split(" ")[1] for l in lines if l.split(" ")[1] in ("I", "N", "E") ]
+        if tail[-2:] != ["I", "N"]:
+            return "backlog: after the backlog was consumed a fresh message gave %s (expected the message, then Pending)" % tail[-2:]
+        return None
     if (case.get("id") or "").startswith("ack-write-fails"):
         # the write fault hits the acknowledgement, after the message was handed to its stream
         got = [kv(" ".join(l.split(" ")[3:]))["pl"] for l in lines if l.split(" ")[1] == "I"]
@@ -953,8 +1006,9 @@ def c07(case, lines):
 def c15(case, lines):
     tr = Trace(case, lines)
     rr = tr.run_result()
-    if rr is not None and not tr.faulty and not has(tr, "drophandle", "disc") and \
-       not any(e.startswith("start") and " disc" in e for e in tr.evs):
+    fp_ = first_polls(tr)
+    polled_disc = any(sp["kind"] == "disc" and op in fp_ for op, sp in op_specs(tr).items())
+    if rr is not None and not tr.faulty and not has(tr, "drophandle") and not polled_disc:
         conn = connection_streams(tr)[0]
         inp = inbound(tr, conn)
         if inp is not None and not any(p[0] >> 4 == 14 for _, p in inp):
@@ -1000,6 +1054,9 @@ def c15(case, lines):
                     ran_after = asked and (not has(tr, "hold") or any(e == "release" for e in tr.evs[asked[0]:]))
                     if asked and ran_after and asked[0] < len(tr.evs) - 1:
                         return "pubrel: the PUBREL of QoS 2 publish id %d was requested at event %d (poll after its PUBREC) but never written; its flow-control slot is never returned" % (i["pid"], asked[0])
+    r8 = c08(case, lines) if "dropped-stream" in (case.get("tags") or []) else None
+    if r8:
+        return r8
     return c10(case, lines) if not has(tr, "hold") else None
 
 
@@ -1212,9 +1269,64 @@ def submission_order(tr):
     return None
 
 
+def connect_content(tr):
+    """the CONNECT written carries the caller's will (present iff topic and payload were given - an empty payload is a payload)
+    and the caller's user properties: CONNECT's in the CONNECT properties, the will's in the will properties, each in call order"""
+    ce = [(k, e) for k, e in enumerate(tr.evs) if e.split(" ")[0] == "connect"]
+    if not ce or tr.faulty:
+        return None
+    k0, e = ce[0]
+    toks = e.split(" ")[1:]
+    args = [t.split("=", 1) for t in toks if "=" in t]
+    want_up = [tuple(M.unhex(x) for x in v.split(":")) for k, v in args if k == "up"]
+    want_wup = [tuple(M.unhex(x) for x in v.split(":")) for k, v in args if k == "wup"]
+    d = dict(args)
+    want_will = "wt" in d and "wp" in d
+    w = b"".join(M.unhex(r[2:]) for r in tr.by.get(k0, []) if r.startswith("W "))
+    if not w or w[0] != 0x10:
+        return None
+    try:
+        n, j = M.read_varint(w, 1)
+        body = w[j:j + n]
+        flags = body[7]
+        pl, k = M.read_varint(body, 10)
+        dp = decode_props(body[k:k + pl])
+        k += pl
+        cl = (body[k] << 8) | body[k + 1]
+        k += 2 + cl
+        has_will = bool(flags & 4)
+        wdp = ({}, [])
+        wpay = None
+        if has_will:
+            wl, k2 = M.read_varint(body, k)
+            wdp = decode_props(body[k2:k2 + wl])
+            k = k2 + wl
+            tl = (body[k] << 8) | body[k + 1]
+            k += 2 + tl
+            pl2 = (body[k] << 8) | body[k + 1]
+            wpay = bytes(body[k + 2:k + 2 + pl2])
+    except Exception:
+        return "connect: the CONNECT written cannot be decoded field by field"
+    if dp is None or wdp is None:
+        return "connect: a property section of the CONNECT written cannot be decoded"
+    if has_will != want_will:
+        return "connect: the caller %s a will (topic and payload given: %s), the CONNECT written has Will Flag %d" % (
+            "asked for" if want_will else "did not ask for", want_will, int(has_will))
+    if want_will and wpay != M.unhex(d["wp"]):
+        return "connect: the will payload written is %s, the caller gave %s" % (M.hx(wpay), d["wp"])
+    if dp[1] != want_up:
+        return "connect: the CONNECT properties carry the user properties %s, the caller gave %s (in this order)" % (dp[1], want_up)
+    if want_will and wdp[1] != want_wup:
+        return "connect: the will properties carry the user properties %s, the caller gave %s (in this order)" % (wdp[1], want_wup)
+    return None
+
+
 @oracle("C01")
 def c01(case, lines):
     tr = Trace(case, lines)
+    r0 = connect_content(tr)
+    if r0:
+        return r0
     if (case.get("id") or "").startswith("dropped-queued"):
         # (the rule needs every local refusal to be observed; these scripts make sure it is)
         r = submission_order(tr)
